@@ -34,6 +34,10 @@ def units(tier):
     add("D=2 both, outer moved", D=2, deadlines=(0, 1), redeadline=(0,), T=1, J=0)
     add("D=2 both, inner shield raised", D=2, deadlines=(0, 1), toggle=(1, True), T=1, J=0)
     add("D=1 fail_at re-armed", D=1, deadlines=(0,), helper="fail_at", redeadline=(0,), T=1)
+    add("D=1 deadline initially inf or finite, re-armed", D=1, deadlines=(0,), redeadline=(0,), dl_may_be_inf=True, T=1)
+    add("D=2 inner initially inf or finite, re-armed", D=2, deadlines=(1,), redeadline=(1,), dl_may_be_inf=True, T=1, J=0)
+    add("D=1 deadline assigned before entry", D=1, deadlines=(0,), deadline_outside="before")
+    add("D=1 deadline assigned after exit", D=1, deadlines=(0,), deadline_outside="after", T=1)
     add("D=1 fail_after re-armed", D=1, deadlines=(0,), helper="fail_after", redeadline=(0,), T=1)
     add("D=1 move_on_after explicit cancel", D=1, deadlines=(0,), helper="move_on_after", cancel=0, T=1, J=1)
     add("D=2 inner deadline re-armed outer cancel", D=2, deadlines=(1,), redeadline=(1,), cancel=0, T=1, J=0, post0=True)
